@@ -26,9 +26,10 @@ def Attested (o : AttObj) (d : AuthData) (acd : AttestedCredentialData) : Prop :
 /-- the credential public key is the supported COSE key `k` -/
 def CredKey (acd : AttestedCredentialData) (k : Cose.Key) : Prop := ∃ rest, Cose.parse acd.credentialPublicKey = .ok k rest
 
-/-- the certificate `der` verifies `sig` over `msg` with the X.509 algorithm of COSE algorithm `alg` -/
-def CertSigOK (env : Prog.Env) (der : Bytes) (alg : Int) (msg sig : Bytes) : Prop :=
-  env.answer (.x509CheckSig der (Spec.Cose.x509Of alg) msg sig) = .bool true
+/-- the certificate `der` (view `c`) verifies `sig` over `msg` with the X.509 algorithm of COSE algorithm `alg`: the primitive that
+    crypto/x509 uses for that algorithm and the kind of the certificate's key answers positively (Model/X509Sig.lean) -/
+def CertSigOK (env : Prog.Env) (der : Bytes) (c : CertView) (alg : Int) (msg sig : Bytes) : Prop :=
+  X509Sig.Checked env der c.key (Spec.Cose.x509Of alg) msg sig
 
 def s (x : String) : Bytes := Bytes.ofString x
 
@@ -40,7 +41,7 @@ structure PackedX5cOK (env : Prog.Env) (o : AttObj) (h : Bytes) (res : Result) :
   fmt : o.fmt = s "packed"
   body : ∃ der c rest d acd, X5c env o.stmt ((der, c) :: rest) ∧ Attested o d acd ∧
     -- sig is a signature by the attestation certificate over authData ‖ clientDataHash with `alg`
-    CertSigOK env der (getAlgorithm o.stmt) (o.authData ++ h) (getSignature o.stmt) ∧
+    CertSigOK env der c (getAlgorithm o.stmt) (o.authData ++ h) (getSignature o.stmt) ∧
     -- certificate requirements (§8.2.1)
     c.version = 3 ∧ c.isCA = false ∧ c.country ≠ [] ∧ c.org ≠ [] ∧ c.orgUnit = s "Authenticator Attestation" ∧ c.commonName ≠ [] ∧
     -- id-fido-gen-ce-aaguid, when present, is non-critical and equals the AAGUID of the authenticator data
@@ -63,7 +64,7 @@ structure U2FOK (env : Prog.Env) (o : AttObj) (h : Bytes) (res : Result) : Prop 
     X5c env o.stmt [(der, c)] ∧                                   -- exactly one certificate
     c.key = .ec 1 px py ∧                                          -- with a P-256 EC key
     Attested o d acd ∧ CredKey acd (.ec2 alg crv x y) ∧            -- and an EC2 credential key
-    CertSigOK env der alg (u2fMessage d.rpIdHash h acd.credentialId x y) (getSignature o.stmt) ∧
+    CertSigOK env der c alg (u2fMessage d.rpIdHash h acd.credentialId x y) (getSignature o.stmt) ∧
     res = ⟨"Unknown", [der]⟩
 
 /-! tpm -/
@@ -84,7 +85,7 @@ structure TpmOK (env : Prog.Env) (o : AttObj) (h : Bytes) (res : Result) : Prop 
     pa.encoded = some paEnc ∧ ci.hasCertifyInfo = true ∧ ci.name = .digest nameAlg nameVal ∧ nameAlg = pa.nameAlg ∧
     Tpm2.hashOf hashes nameAlg = some hashId ∧ env.answer (.hash hashId paEnc) = .bytes nameVal ∧
     -- sig is a signature by the AIK certificate over certInfo
-    ci.encoded = some ciEnc ∧ CertSigOK env der (getAlgorithm o.stmt) ciEnc (getSignature o.stmt) ∧
+    ci.encoded = some ciEnc ∧ CertSigOK env der c (getAlgorithm o.stmt) ciEnc (getSignature o.stmt) ∧
     -- AIK certificate requirements (§8.3.1)
     c.version = 3 ∧
     -- the SAN carries a directory name with a registered manufacturer, a model and a version (characterised by `C17.hardwareDetails_iff`)
@@ -96,7 +97,7 @@ structure TpmOK (env : Prog.Env) (o : AttObj) (h : Bytes) (res : Result) : Prop 
 structure AndroidKeyOK (env : Prog.Env) (o : AttObj) (h : Bytes) (res : Result) : Prop where
   body : ∃ der c rest d acd k e kd,
     X5c env o.stmt ((der, c) :: rest) ∧ Attested o d acd ∧ CredKey acd k ∧
-    CertSigOK env der (getAlgorithm o.stmt) (o.authData ++ h) (getSignature o.stmt) ∧
+    CertSigOK env der c (getAlgorithm o.stmt) (o.authData ++ h) (getSignature o.stmt) ∧
     -- the certificate key is the credential public key
     c.key ≠ .other ∧ c.key = k.material ∧
     findExt c [1, 3, 6, 1, 4, 1, 11129, 2, 1, 17] = some e ∧ KeyDesc.view e.value = some kd ∧
